@@ -472,7 +472,7 @@ let eval (x : sx) : sx =
        | Ok ls -> L (A "ok" :: List.map (fun l -> L (List.map sf l)) ls)
        | Err k -> rerr k)
   | L [A "convert1"; tp; t] -> rfloats (convert fnum (seconds_env fnum (penv tp)) Z0 (tree t))
-  | L [A "metrize"; t] -> rfloats (metrize fnum (ttree t))
+  | L [A "metrize"; t] -> rfloats (metrize2 fnum (ttree t))   (* the one-trajectory model, else the step model *)
   | L [A "jointempo"; _; ta; da; tb; _] ->
       let flex x = (match x with L (A "T" :: _) -> true | _ -> false) in
       renv (join_tempo fnum (flex ta) (flex tb) (penv ta) (zi da) (penv tb))
